@@ -1,12 +1,12 @@
 """C17 — tower engine and final exponentiation (exponent effect, Frobenius maps, dispatch)."""
 from core import report
 from core.sm9 import Repo
-from . import shared, consts, expo, field, mono
+from . import shared, consts, expo, field, mono, support
 
 
 def run(ctx):
     repo = Repo(ctx.dev)
-    rules = [expo.rule_exp("C17", repo), consts.rule_frobenius("C17", repo), consts.rule_frob_dispatch("C17", repo), consts.rule_const("C17", repo), field.rule_zero_cover("C17", repo), field.rule_tower_shapes("C17", repo), field.rule_shortcuts("C17", repo, ["crate::fields::fq12::Fq12", "crate::fields::fq4::Fq4"]), mono.rule_shortcut_formulas("C17", repo, ["crate::fields::fq12::Fq12", "crate::fields::fq4::Fq4"])]
+    rules = [expo.rule_exp("C17", repo), consts.rule_frobenius("C17", repo), consts.rule_frob_dispatch("C17", repo), consts.rule_const("C17", repo), field.rule_zero_cover("C17", repo), field.rule_tower_shapes("C17", repo), field.rule_shortcuts("C17", repo, ["crate::fields::fq12::Fq12", "crate::fields::fq4::Fq4"]), mono.rule_shortcut_formulas("C17", repo, ["crate::fields::fq12::Fq12", "crate::fields::fq4::Fq4"]), support.rule_shortcut_supports("C17", repo, ["crate::fields::fq12::Fq12", "crate::fields::fq4::Fq4"])]
     return report.emit(
         "C17", ctx.tier, ctx.seed, rules, ctx.started,
         "Exponent-effect abstract interpretation of both final-exponentiation routines (each Fq12 primitive acts on the discrete log by a fixed map mod q^12−1; the chains compose "
